@@ -44,6 +44,8 @@ inductive Step where
   | write_sync
   | read_sync
   | unshare_cgroup
+  | prctl_pdeathsig
+  | getppid
   | ptrace_traceme
   | kill_stop
   | seccomp
@@ -86,6 +88,8 @@ def Step.ofLabel : String → Step
   | "write:sync" => .write_sync
   | "read:sync" => .read_sync
   | "unshare:cgroup" => .unshare_cgroup
+  | "prctl:pdeathsig" => .prctl_pdeathsig
+  | "getppid" => .getppid
   | "ptrace:traceme" => .ptrace_traceme
   | "kill:stop" => .kill_stop
   | "seccomp" => .seccomp
@@ -102,6 +106,11 @@ def syncBlock (o : Opts) (withSeccomp : Bool) : List Step :=
   opt o.ucas ([.unshare_cgroup] ++
     opt (o.dropCaps || o.cred) [.prctl_securebits_noroot, .capset] ++
     opt (withSeccomp && o.seccomp) [.seccomp])
+
+/-- a traced child first asks to be killed with its parent (the tracer sets PTRACE_O_EXITKILL only at the
+first stop), and checks that the parent is still there (unless it cannot see it: new pid namespace) -/
+def tracemeSteps (o : Opts) : List Step :=
+  [.prctl_pdeathsig] ++ opt (!o.newPid) [.getppid] ++ [.ptrace_traceme]
 
 def mountSteps (o : Opts) : List Step :=
   (List.range o.nMounts).flatMap (fun _ => [.mkdirat, .mount] ++ opt o.roBindMount [.statfs, .mount_remount])
@@ -124,11 +133,11 @@ def skeleton (o : Opts) : List Step :=
   List.replicate o.nRlimits .prlimit64 ++
   opt (o.nnp || o.seccomp) [.prctl_nnp] ++
   opt ((o.cred || o.dropCaps) && !o.ucas) [.prctl_securebits_noroot, .capset] ++
-  opt (o.ptrace && o.seccomp) (syncBlock o false ++ [.ptrace_traceme]) ++
+  opt (o.ptrace && o.seccomp) (syncBlock o false ++ tracemeSteps o) ++
   opt (o.stopBefore || (o.seccomp && o.ptrace)) [.kill_stop] ++
   opt (o.seccomp && (!o.ucas || o.ptrace)) [.seccomp] ++
   opt (!o.ptrace || !o.seccomp) (syncBlock o true) ++
-  opt (o.ptrace && !o.seccomp) [.ptrace_traceme] ++
+  opt (o.ptrace && !o.seccomp) (tracemeSteps o) ++
   opt (decide (o.execFile > 0)) [.execveat] ++ opt (!decide (o.execFile > 0)) [.execve]
 
 /-- clone flags computed by the function: the requested namespace flags, plus VM|VFORK when no
@@ -156,7 +165,8 @@ def label (s : Sys) : String :=
   | "prctl" =>
     if intArg (a 0) == cNat "syscall.PR_SET_SECUREBITS" then
       (if (intArg (a 1)).toNat.land (cNat "_SECURE_NOROOT").toNat != 0 then "prctl:securebits:noroot" else "prctl:securebits:keep")
-    else if intArg (a 0) == cNat "unix.PR_SET_NO_NEW_PRIVS" then "prctl:nnp" else "prctl:?"
+    else if intArg (a 0) == cNat "unix.PR_SET_NO_NEW_PRIVS" then "prctl:nnp"
+    else if intArg (a 0) == cNat "syscall.PR_SET_PDEATHSIG" then "prctl:pdeathsig" else "prctl:?"
   | "ioctl" => "ioctl:ctty"
   | "mount" =>
     let flags := (intArg (a 3)).toNat
